@@ -318,6 +318,14 @@ func c20run(r *kernel.Run, seed uint64) {
 		}
 	}
 	if !finished {
+		s.wait()
+		select {
+		case rerr = <-done:
+			finished = true
+		default:
+		}
+	}
+	if !finished {
 		// permanent quiescence: the restore waits for something the archive does not contain
 		r.Probe("restore_blocked_on_incomplete_archive")
 		r.Logf("restore did not return (fault %s)", fault)
